@@ -324,6 +324,8 @@ def check_generate(cfg, crate, rep):
         okp = bool(prods) and all(k_ == "pkcs8" for _, k_ in prods)
         rep.ob("C11.doc", "%s|%s|%s|document-is-pkcs8" % (cfg, fn, kind), okp, "the stored (and exported under the PRIVATE KEY label) document of a generated key is a PKCS#8 document by type", found=prods, sp=node.get("sp"))
         # generator parameterised by the algorithm's own back-end constant
+        if kind == "Rsa" or (kind is None and cfg == "K2"):
+            rep.ob("C11.pairs", "%s|%s|Rsa|encoding-from-alg" % (cfg, fn), "alg.sign_alg#Rsa.0" in places(sv.fields.get("kind")), "a generated RSA key signs with the padding / hash of the requested algorithm (not with whatever a generic loader defaults to)", found=sorted(places(sv.fields.get("kind")))[:6])
         if kind == "Ec":
             rep.ob("C11.pairs", "%s|%s|Ec|curve-from-alg" % (cfg, fn), "alg.sign_alg#EcDsa.0" in places(sv.fields.get("kind")), "the curve of the generated key is the requested algorithm's", found=sorted(places(sv.fields.get("kind"))))
     # remote
@@ -450,6 +452,10 @@ def run(ctx):
         crate = ctx.crate(cfg)
         check_pairs(cfg, crate, rep, tables)
         check_generate(cfg, crate, rep)
+        # "loaded again through any of the loading entry points": the PEM entry points hand the envelope's contents to the
+        # sniffing DER loaders and do not dispatch on the label
+        import c14
+        common.borrow_rules(rep, lambda: c14.loaders(cfg, crate, rep), "C14.", "C11.load")
         check_spki(cfg, crate, rep)
         check_eq(cfg, crate, rep)
         for fn in (EXPLICIT, EXPLICIT_DER):
